@@ -147,7 +147,7 @@ open Afkak.Consts
 
 structure WInv (s : St) : Prop where
   stop_needed : s.stopping = true → s.rejoinNeeded = false
-  hb_timer : s.hbRunning = false → ∀ t ∈ s.timers, t.kind ≠ .hb
+  hb_timer : s.hbRunning = false → (∀ t ∈ s.timers, t.kind ≠ .hb) ∧ s.hbInFlight = false
   timer_lt : ∀ t ∈ s.timers, t.id < s.nextTimer
   timer_uniq : s.timers.Pairwise (fun a b => a.id ≠ b.id)
   dc_active : s.stopping = false → ∀ id, s.rejoinWaitDc = some id → ∃ t ∈ s.timers, t.id = id ∧ t.kind = .rejoin
@@ -241,7 +241,7 @@ theorem scheduleRejoin_winv {s : St} (h : WInv s) (cfg : Cfg) (fd : Bool) (hs : 
   · simp only [Option.isNone_none, if_true, andThen_fst]
     constructor <;> simp only [addTimer_timers, addTimer_nextTimer, addTimer_stopping, addTimer_hbRunning, addTimer_cons,
       addTimer_gen, addTimer_member, addTimer_asg, addTimer_leaveWait, addTimer_started, addTimer_startResult,
-      addTimer_rejoinD, addTimer_jpc, addTimer_rejoinNeeded]
+      addTimer_rejoinD, addTimer_jpc, addTimer_rejoinNeeded, addTimer_hbInFlight]
     · simp [hs]
     · have := h.hb_timer; grind
     · have := h.timer_lt; grind
@@ -445,7 +445,7 @@ theorem winv_jpc_update {s : St} (h : WInv s) (hs : s.stopping = true) (rd : Boo
 theorem winv_addRetry {s : St} (h : WInv s) (d : Rat) : WInv (addTimer s .retry d).1 := by
   constructor <;> simp only [addTimer_timers, addTimer_nextTimer, addTimer_stopping, addTimer_hbRunning, addTimer_cons,
       addTimer_gen, addTimer_member, addTimer_asg, addTimer_leaveWait, addTimer_started, addTimer_startResult,
-      addTimer_rejoinD, addTimer_jpc, addTimer_rejoinNeeded, addTimer_rejoinWaitDc]
+      addTimer_rejoinD, addTimer_jpc, addTimer_rejoinNeeded, addTimer_rejoinWaitDc, addTimer_hbInFlight]
   · exact h.stop_needed
   · have := h.hb_timer; grind
   · have := h.timer_lt; grind
@@ -564,7 +564,7 @@ theorem Mid.trans {a b c : St} (h1 : Mid a b) (h2 : Mid b c) : Mid a c :=
    by rw [h2.started, h1.started], by rw [h2.leaveWait, h1.leaveWait]⟩
 
 theorem winv_filter_timers {s : St} (h : WInv s) (hs : s.stopping = true) (p : Timer → Bool) (hb : Bool)
-    (hhb : hb = false → ∀ t ∈ s.timers.filter p, t.kind ≠ .hb) :
+    (hhb : hb = false → (∀ t ∈ s.timers.filter p, t.kind ≠ .hb) ∧ s.hbInFlight = false) :
     WInv { s with timers := s.timers.filter p, hbRunning := hb } := by
   constructor <;> simp only []
   · exact h.stop_needed
@@ -585,17 +585,21 @@ theorem stopCancelDc_mid {s : St} (h : WInv s) (hs : s.stopping = true) (hn : No
   · exact ⟨h, hn, hs, rfl, rfl, rfl, rfl, rfl⟩
   · rename_i id
     refine ⟨?_, hn, hs, rfl, rfl, rfl, rfl, rfl⟩
-    exact winv_filter_timers h hs (fun t => t.id != id) s.hbRunning (fun hb t ht => h.hb_timer hb t (List.mem_filter.mp ht).1)
+    exact winv_filter_timers h hs (fun t => t.id != id) s.hbRunning (fun hb => ⟨fun t ht => (h.hb_timer hb).1 t (List.mem_filter.mp ht).1, (h.hb_timer hb).2⟩)
 
-theorem hbStop_mid {s : St} (h : WInv s) (hs : s.stopping = true) (hn : NoHeld s) :
+theorem hbStop_mid {s : St} (h : WInv s) (hs : s.stopping = true) (hn : NoHeld s) (hf : s.hbInFlight = false) :
     Mid s (hbStop s).1 ∧ (hbStop s).1.hbRunning = false := by
   refine ⟨⟨?_, hn, hs, rfl, rfl, rfl, rfl, rfl⟩, rfl⟩
-  exact winv_filter_timers h hs (fun t => t.kind != .hb) false (fun _ t ht => by simpa using (List.mem_filter.mp ht).2)
+  exact winv_filter_timers h hs (fun t => t.kind != .hb) false (fun _ => ⟨fun t ht => by simpa using (List.mem_filter.mp ht).2, hf⟩)
 
-theorem winv_hbInFlight {s : St} (h : WInv s) (b : Bool) : WInv { s with hbInFlight := b } := by
+theorem winv_hbInFlight {s : St} (h : WInv s) (b : Bool) (hb : b = true → s.hbRunning = true) : WInv { s with hbInFlight := b } := by
   constructor <;> simp only []
   · exact h.stop_needed
-  · exact h.hb_timer
+  · intro hr
+    refine ⟨(h.hb_timer hr).1, ?_⟩
+    cases b
+    · rfl
+    · rw [hb rfl] at hr; cases hr
   · exact h.timer_lt
   · exact h.timer_uniq
   · exact h.dc_active
@@ -607,25 +611,27 @@ theorem winv_hbInFlight {s : St} (h : WInv s) (b : Bool) : WInv { s with hbInFli
   · exact h.pristine
 
 theorem stopCancelHb_mid {s : St} (h : WInv s) (cfg : Cfg) (hs : s.stopping = true) (hn : NoHeld s) :
-    Mid s (stopCancelHb cfg s).1 := by
+    Mid s (stopCancelHb cfg s).1 ∧ (stopCancelHb cfg s).1.hbInFlight = false := by
   unfold stopCancelHb
-  have h1 := winv_hbInFlight h false
+  have h1 := winv_hbInFlight h false (fun x => by cases x)
   split
   · simp only []
     split
     · simp only [andThen_fst]
-      obtain ⟨m, _⟩ := hbStop_mid (s := { s with hbInFlight := false }) h1 hs hn
+      obtain ⟨m, _⟩ := hbStop_mid (s := { s with hbInFlight := false }) h1 hs hn rfl
       obtain ⟨w, c, _, _, nh⟩ := rejoinCore_stopping_winv m.winv cfg .cancelled m.stopping
-      exact ⟨w, nh m.noheld, by rw [c.stopping]; exact m.stopping, by rw [c.rejoinD]; exact m.rd, by rw [c.jpc]; exact m.jpc,
-        by rw [c.stops]; exact m.stops, by rw [c.started]; exact m.started, by rw [c.leaveWait]; exact m.leaveWait⟩
-    · exact ⟨h1, hn, hs, rfl, rfl, rfl, rfl, rfl⟩
-  · exact ⟨h, hn, hs, rfl, rfl, rfl, rfl, rfl⟩
+      exact ⟨⟨w, nh m.noheld, by rw [c.stopping]; exact m.stopping, by rw [c.rejoinD]; exact m.rd, by rw [c.jpc]; exact m.jpc,
+        by rw [c.stops]; exact m.stops, by rw [c.started]; exact m.started, by rw [c.leaveWait]; exact m.leaveWait⟩,
+        by rw [c.hbInFlight]; rfl⟩
+    · exact ⟨⟨h1, hn, hs, rfl, rfl, rfl, rfl, rfl⟩, rfl⟩
+  · rename_i hf
+    exact ⟨⟨h, hn, hs, rfl, rfl, rfl, rfl, rfl⟩, by simpa using hf⟩
 
-theorem stopLooper_mid {s : St} (h : WInv s) (hs : s.stopping = true) (hn : NoHeld s) :
+theorem stopLooper_mid {s : St} (h : WInv s) (hs : s.stopping = true) (hn : NoHeld s) (hf : s.hbInFlight = false) :
     Mid s (stopLooper s).1 ∧ (stopLooper s).1.hbRunning = false := by
   unfold stopLooper
   split
-  · exact hbStop_mid h hs hn
+  · exact hbStop_mid h hs hn hf
   · rename_i hr
     exact ⟨⟨h, hn, hs, rfl, rfl, rfl, rfl, rfl⟩, by simpa using hr⟩
 
@@ -691,8 +697,8 @@ theorem coordStop_res {s : St} (h : WInv s) (cfg : Cfg) (err : Option GErr) (use
     · simp only [andThen_fst]
       have mA := stopCancelDc_mid w1 rfl hn
       have mB := stopCancelHb_mid mA.winv cfg mA.stopping mA.noheld
-      have mC := stopLooper_mid mB.winv mB.stopping mB.noheld
-      have m := (mA.trans mB).trans mC.1
+      have mC := stopLooper_mid mB.1.winv mB.1.stopping mB.1.noheld mB.2
+      have m := (mA.trans mB.1).trans mC.1
       obtain ⟨w, nh, st, hbf, sp, sh⟩ := leaveOrFinish_res m.winv cfg err user m.stopping m.noheld (by rw [m.rd, m.jpc]; exact hj) mC.2
       refine ⟨w, nh, by rw [st, m.stops], by simp [hbf], Or.inr ⟨sp, ?_⟩⟩
       rcases sh with ⟨a, b⟩ | ⟨a, b⟩
